@@ -25,7 +25,7 @@ import re as real_re
 from fractions import Fraction
 from typing import Optional
 
-from ..core import Prop, Violation, import_repo, hexs, unhexs, show_bool, show_rat, Infra
+from ..core import Prop, Violation, import_repo, hexs, unhexs, show_bool, show_rat, Infra, REPO, LEAN, write_if_changed
 
 # ----------------------------------------------------------------------------------------------------------
 # the pinned tables (what index i of the model's `findall i` / `sub i` stands for)
@@ -450,6 +450,15 @@ class C11(Prop):
     trusted_modelled = [
         "modelled, not verified: CPython json / re, pydantic model_validate and the coercion helper as the Env "
         "parameter of Operon.Chaperone (recorded per case); str.strip() as Operon.Chaperone.strip"]
+
+    extractors = ["E5-chaperone"]
+
+    # --- extractor: tables and constants regenerated from the source on every run ---------------------------
+    def extract(self, ctx):
+        from ..extract import e5_chaperone
+        text = e5_chaperone.generate(REPO, self.m)
+        changed = write_if_changed(LEAN / "Operon" / "Gen" / "ChaperoneTables.lean", text)
+        return [{"id": "E5-chaperone", "facts_changed": bool(changed), "facts_unrecognised": text.count(":= none")}]
 
     # --- setup -------------------------------------------------------------------------------------------
     def setup(self, ctx):
